@@ -350,6 +350,28 @@ func decodeCatalogue(rng *rand.Rand) [][]byte {
 		f[31] = top
 		out = append(out, f)
 	}
+	// L with one 32-bit word replaced (words above it equal to L's, so that this word decides; words below arbitrary):
+	// the replaced word at distance 0, +-1, +-2^31 and more from L's word, and the extreme values
+	lbw := ref.LE32(L)
+	for w := 0; w < 8; w++ {
+		lw := uint32(lbw[4*w]) | uint32(lbw[4*w+1])<<8 | uint32(lbw[4*w+2])<<16 | uint32(lbw[4*w+3])<<24
+		for _, nv := range []uint32{0, 0xffffffff, lw, lw + 1, lw - 1, lw + 1<<31, lw - 1<<31, lw + 1<<31 + 1, lw + 1<<31 - 1, lw ^ 0x80000000, 0x7fffffff, 0x80000000, rng.Uint32(), rng.Uint32()} {
+			for rep := 0; rep < 2; rep++ {
+				b := append([]byte{}, lbw...)
+				copy(b[:4*w], mon.Bytes(rng, 4*w))
+				if rep == 1 {
+					for i := 0; i < 4*w; i++ {
+						b[i] = 0xff
+					}
+				}
+				b[4*w], b[4*w+1], b[4*w+2], b[4*w+3] = byte(nv), byte(nv>>8), byte(nv>>16), byte(nv>>24)
+				if w == 7 {
+					b[31] &= 0x1f // stay in the range the word-wise comparison is used for
+				}
+				out = append(out, b)
+			}
+		}
+	}
 	// values just above 2^252 with a single low word differing from L's (succeed/fail inside the loop)
 	for i := 0; i < 64; i++ {
 		b := ref.LE32(L)
@@ -396,6 +418,22 @@ func wideCatalogue(rng *rand.Rand) [][]byte {
 	}
 	for i := 0; i < 200; i++ {
 		out = append(out, mon.Bytes(rng, 64))
+	}
+	// low part saturated (all ones up to bit k-1, k around the Montgomery radix of both backends: 2^260, 2^261) with
+	// an arbitrary high part; and the mirror image (low part zero): the two halves of a fused reduction are at the
+	// edge of their input bound (about 2^-10 of these, 2^-20 of uniform strings)
+	for i := 0; i < 6000; i++ {
+		k := uint(250 + rng.IntN(16))
+		v := new(big.Int).SetBytes(mon.Bytes(rng, 64))
+		low := new(big.Int).Sub(new(big.Int).Lsh(big.NewInt(1), k), big.NewInt(1))
+		v.Rsh(v, k).Lsh(v, k)
+		switch i % 4 {
+		case 0, 1:
+			v.Or(v, low)
+		case 2:
+			v.Or(v, new(big.Int).Sub(low, big.NewInt(int64(rng.IntN(1<<20)))))
+		}
+		add(v)
 	}
 	return out
 }
@@ -452,6 +490,17 @@ func runCase(r *mon.Run, c Case) {
 			a, b := gen.RandScalar(rng, cat), gen.RandScalar(rng, cat)
 			x.pair(a, b)
 			x.unary(a)
+		}
+		// distinct values whose difference cancels under word-wise XOR / sum accumulators (Equal), and values that
+		// look like zero to them
+		mask := new(big.Int).Sub(gen.Two255, big.NewInt(1))
+		for _, d := range gen.CancelPatterns(rng, 60) {
+			a := gen.Rand255(rng)
+			dv := ref.FromLE(d)
+			x.pair(a, new(big.Int).Xor(a, dv))
+			x.pair(a, new(big.Int).And(new(big.Int).Add(a, dv), mask))
+			x.pair(dv, big.NewInt(0))
+			x.unary(dv)
 		}
 	case "decode":
 		for _, b := range decodeCatalogue(rng) {
